@@ -13,6 +13,8 @@ pub mod paths;
 pub mod pretty;
 pub mod telemetry;
 pub mod watch;
+#[cfg(feature = "verif-hooks")]
+pub mod verif;
 
 mod test_framework;
 
@@ -1169,6 +1171,9 @@ where
                 _ => None,
             })
             .collect::<Vec<_>>();
+
+        #[cfg(feature = "verif-hooks")]
+        crate::verif::pre_parallel(&tests);
 
         let mut results = tests
             .into_par_iter()
